@@ -144,6 +144,20 @@ def evaluate(rng, tier, judge, n_quick=150, n_thorough=1500, runs=3, cli_share=0
         hist["given:%d" % len(scn["given"])] += 1
         for k, t in scn["targets"].items():
             hist["target:%s:%s%s" % (k, t["pre"], ":method" if L.kind_of(k) == "function" and "." in scn["names"]["function"] else "")] += 1
+            for opt_key in ("nested", "forward_decl", "receiver", "style"):
+                if t.get(opt_key):
+                    hist["target-shape:%s:%s" % (opt_key, t[opt_key])] += 1
+        second = scn["truth"] + "#2"
+        if second in scn["targets"]:
+            hist["second-file-of-truth-kind:%s:%s" % (via, "sorts-before-the-truth" if L.file_of(second, scn) < L.file_of(scn["truth"], scn)
+                                                     else "sorts-after-the-truth")] += 1
+        for opt_key in ("receiver", "style"):
+            if scn.get(opt_key) and scn["truth"] == "function":
+                hist["truth-shape:%s:%s" % (opt_key, scn[opt_key])] += 1
+        if scn.get("body") is not None:
+            hist["truth-body:%d" % scn["body"]] += 1
+        hist["files:%s:options-%s" % ("own-names" if scn.get("files") else "kind-names",
+                                      "shuffled" if scn.get("argv_seed") is not None else "in-order")] += 1
         if len(samples) < 6:
             samples.append({"scenario": scn})
         fails = judge(res)
@@ -174,7 +188,9 @@ def evaluate(rng, tier, judge, n_quick=150, n_thorough=1500, runs=3, cli_share=0
             hist["fail:%s" % (cls or "UNCLASSIFIED")] += 1
             failures.append({"case": {"scenario": scn, "target": f["target"]}, "what": f["what"], "class": cls})
     return {"evaluations": n, "distinct_nontrivial": len(seen),
-            "rule": "generated sync scenarios (truth kind x kinds given x target pre-state x placement x method/function x API/CLI); "
+            "rule": "generated sync scenarios (truth kind x kinds given x target pre-state x placement x method/function x "
+                    "API / command line / its entry point in-process; a second file of the truth's kind, file names of their own, "
+                    "option order, same-named stand-ins and forward declarations, receiver and parameter style, carried bodies); "
                     "non-trivial = distinct scenario shape with at least one target on which the property held",
             "failures": failures, "histogram": dict(hist), "samples": samples}
 
